@@ -424,8 +424,18 @@ def std_bins_correspondence(ctx, rng, gs, drv, n_cases):
         structured = rng.random() < 0.3
         if structured:
             shape = tuple(int(x) for x in rng.integers(1, 5, size=dim))
-            axes = ([np.sort(rng.uniform(-80, 80, shape[0])), np.sort(rng.uniform(-170, 170, shape[1]))] if latlon
-                    else [np.sort(rng.normal(size=k) * 2) for k in shape])
+            if latlon and rng.random() < 0.6:
+                # regular lat-lon meshes whose ranges cross the equator / contain multiples of 90 degrees: the extreme 3-D
+                # coordinates are then attained INSIDE the ranges, not at the corners
+                shape = tuple(int(x) for x in rng.integers(3, 10, size=2))
+                la0 = float(rng.uniform(-85, 20)); la1 = float(rng.uniform(max(la0 + 5, -10), 88))
+                lc = float(rng.choice([-180, -90, 0, 90, 180])) + float(rng.uniform(-30, 30))
+                lw = float(rng.uniform(20, 170))
+                axes = [np.linspace(la0, la1, shape[0]), np.linspace(lc - lw / 2, lc + lw / 2, shape[1])]
+            elif latlon:
+                axes = [np.sort(rng.uniform(-80, 80, shape[0])), np.sort(rng.uniform(-170, 170, shape[1]))]
+            else:
+                axes = [np.sort(rng.normal(size=k) * 2) for k in shape]
             pos_arg = tuple(axes)
             coords = np.asarray(drv.call("generate_grid", *axes), float).reshape(dim, -1)
         else:
@@ -451,6 +461,20 @@ def std_bins_correspondence(ctx, rng, gs, drv, n_cases):
             continue
         mod = np.asarray(model_std_bins(drv, latlon, geo, coords, kw), float)
         rt = 1e-15 if "max_dist" in kw else (1e-9 if latlon else 1e-12)
+        if structured:
+            # property level (concrete input): a structured mesh gives the same bins as the equivalent point list
+            case["axes"] = [arr_desc(a) for a in axes]
+            mesh = np.array(np.meshgrid(*axes, indexing="ij"), dtype=float).reshape(dim, -1)
+            try:
+                pl = np.asarray(gs.variogram.standard_bins(tuple(mesh), dim, latlon, geo_scale=geo, **kw), float)
+            except Exception as e:   # noqa
+                pl = None
+                bad.append(("standard_bins raised %s: %s" % (type(e).__name__, e), case, {}))
+            if pl is not None and not rel_close(pl, impl, rtol=1e-12, atol=1e-300):
+                ctx.violation("probe: standard_bins structured mesh = equivalent point list",
+                              "standard_bins(mesh_type='structured') differs from standard_bins of the expanded point list",
+                              dict(case, structured=impl.tolist(), pointlist=pl.tolist()), key="structured:standard_bins-pointlist")
+                continue
         if not rel_close(mod, impl, rtol=rt, atol=1e-300):
             bad.append(("standard_bins vs model std_bins_kw", case, dict(model=mod.tolist(), impl=impl.tolist())))
         if latlon and geo != 1.0:
@@ -462,6 +486,112 @@ def std_bins_correspondence(ctx, rng, gs, drv, n_cases):
                 ctx.violation("probe: standard_bins in a length unit = unit x radian bins",
                               "standard_bins(latlon, geo_scale=s, max_dist=m s) is not s x standard_bins(latlon, max_dist=m)",
                               dict(case, radian=rad.tolist(), unit=impl.tolist()), key="latlon:standard_bins-unit")
+    return bad
+
+
+# ----------------------------------------------------------------------------- axis estimator: model vs implementation
+class CaptureAxis:
+    def __init__(self):
+        self.V = importlib.import_module("gstools.variogram.variogram")
+        self.rec = None
+
+    def __enter__(self):
+        V = self.V
+        self.om, self.os = V._ma_structured, V._structured
+
+        def m(field, mask, estimator_type="m", num_threads=None):
+            self.rec = dict(kind="ma", field=np.array(np.ma.getdata(field), float), mask=np.array(mask).astype(bool), et=estimator_type)
+            return self.om(field, mask, estimator_type, num_threads=num_threads)
+
+        def s_(field, estimator_type="m", num_threads=None):
+            self.rec = dict(kind="plain", field=np.array(field, float), et=estimator_type)
+            return self.os(field, estimator_type, num_threads=num_threads)
+        V._ma_structured, V._structured = m, s_
+        return self
+
+    def __exit__(self, *a):
+        self.V._ma_structured, self.V._structured = self.om, self.os
+
+
+def axis_correspondence(ctx, rng, gs, drv, reps):
+    """vario_estimate_axis / vario_estimate_structured vs the model axis_estimate (mask = own mask OR missing value, the
+    proved lag enumeration over the valid pairs): full product  own mask {with masked elements, mask array without a
+    masked element, nomask masked array, plain ndarray, list, int array} x missing {NaN, no_data, no_data + isclose-only
+    values, NaN while no_data is set, none} x estimator x every axis (int and 'x','y','z') x both public names."""
+    bad = []
+    own_kinds = ["masked", "mask-all-false", "ma-nomask", "plain", "list", "int"]
+    miss_kinds = ["nan", "no_data", "no_data-isclose", "nan-with-no_data", "none"]
+    names = ["vario_estimate_axis", "vario_estimate_structured"]
+    for rep in range(reps):
+        for ok_ in own_kinds:
+            for mk in miss_kinds:
+                if ok_ == "int" and mk != "none" and mk != "no_data":
+                    continue
+                dim = int(rng.integers(1, 4))
+                shape = tuple(int(x) for x in rng.integers(1 if rng.random() < 0.1 else 2, 6, size=dim))
+                for est in ("matheron", "cressie"):
+                    axis = int(rng.integers(dim))
+                    name = names[int(rng.integers(2))]
+                    data = rng.normal(size=shape)
+                    if ok_ == "int":
+                        data = np.round(data * 3)
+                    nd = np.nan
+                    hit = rng.random(size=shape) < 0.2
+                    if mk == "nan":
+                        data[hit] = np.nan
+                    elif mk in ("no_data", "no_data-isclose"):
+                        nd = float(rng.choice([-999.0, 2.0, 0.0]))
+                        data[hit] = nd * (1 + 5e-6) if (mk == "no_data-isclose" and nd != 0.0) else nd
+                    elif mk == "nan-with-no_data":
+                        nd = -999.0
+                        data[hit] = np.nan
+                        data[rng.random(size=shape) < 0.1] = nd
+                    own = np.zeros(shape, bool)
+                    if ok_ == "masked":
+                        own = rng.random(size=shape) < 0.25
+                        if not own.any():
+                            own.reshape(-1)[int(rng.integers(own.size))] = True
+                        if rng.random() < 0.5 and hit.any():
+                            own &= ~hit              # keep the missing values outside the own mask
+                        arg = np.ma.array(data.copy(), mask=own.copy())
+                    elif ok_ == "mask-all-false":
+                        arg = np.ma.array(data.copy(), mask=np.zeros(shape, bool))
+                    elif ok_ == "ma-nomask":
+                        arg = np.ma.array(data.copy())
+                    elif ok_ == "list":
+                        arg = data.tolist()
+                    elif ok_ == "int":
+                        arg = data.astype(np.int64)
+                    else:
+                        arg = data.copy()
+                    direction = axis if rng.random() < 0.5 else "xyz"[axis]
+                    kw = {} if np.isnan(nd) and rng.random() < 0.5 else dict(no_data=nd)
+                    ctx.count(("axis-model", ok_, mk, est, dim, axis, name, isinstance(direction, str)) if shape[axis] >= 3 else None,
+                              hist=dict(entry="correspondence-axis", dim=dim, n=int(np.prod(shape)), est=est, own_mask=ok_, missing=mk))
+                    case = dict(entry=name, shape=list(shape), direction=direction, est=est, no_data=nd, own_mask_kind=ok_, missing_kind=mk,
+                                data=arr_desc(data), own_mask=arr_desc(own))
+                    with CaptureAxis() as cap:
+                        try:
+                            res = np.asarray(getattr(gs, name)(arg, direction=direction, estimator=est, **kw), float)
+                        except Exception as e:   # noqa
+                            ctx.violation("probe: %s raised" % name, "%s: %s" % (type(e).__name__, e), case, key="vario_estimate_axis:exception")
+                            continue
+                        rec = cap.rec
+                    f2 = np.ascontiguousarray(np.swapaxes(data, 0, axis).reshape(shape[axis], -1))
+                    o2 = np.ascontiguousarray(np.swapaxes(own, 0, axis).reshape(shape[axis], -1))
+                    exp = np.asarray(drv.call("axis_estimate", float(nd), o2.astype(np.int64), f2, ("z", ord(est[0]))), float)
+                    if exp.shape != res.shape or not C.bit_equal(exp, res):
+                        ctx.violation("probe: %s vs lag enumeration over the valid pairs" % name,
+                                      "the axis estimate differs from the model: a lag pair must be used iff neither cell is masked by the field's own "
+                                      "mask nor missing (NaN / no_data)", dict(case, expected=exp.tolist(), got=res.tolist()),
+                                      key="axis:model:%s:%s" % (ok_, mk))
+                        continue
+                    mm = np.asarray(drv.call("axis_mask", float(nd), o2.astype(np.int64), f2)).reshape(f2.shape) != 0
+                    masked = bool(drv.call("axis_masked", float(nd), o2.astype(np.int64), f2))
+                    if rec is None or (rec["kind"] == "ma") != masked or rec["et"] != est[0] or not C.bit_equal(rec["field"], f2) or (
+                            masked and not np.array_equal(rec["mask"], mm)):
+                        bad.append(("axis estimator: arguments handed to the kernel (mask union / kernel choice / field)", None,
+                                    dict(case=case, model_mask=mm.astype(int).tolist(), impl=None if rec is None else {k: (v.tolist() if isinstance(v, np.ndarray) else v) for k, v in rec.items()})))
     return bad
 
 
@@ -1125,6 +1255,7 @@ def run(ctx):
         if drv is not None:
             bad = correspondence(ctx, rng, gs, drv, 40000 if thorough else 4000, thorough)
             bad += std_bins_correspondence(ctx, rng, gs, drv, 3000 if thorough else 400)
+            bad += axis_correspondence(ctx, rng, gs, drv, 40 if thorough else 6)
         history_sequences(ctx, rng, gs, drv, 6000 if thorough else 800, thorough)
         t2 = time.time()
         probes(ctx, rng, gs, 400 if thorough else 40, thorough)
@@ -1140,7 +1271,8 @@ def run(ctx):
         ctx.notes.append("correspondence disagreements: %d (first: %s)" % (len(bad), what))
         if not ctx.violations:
             ctx.violation("correspondence: VarioPre model vs vario_estimate", "the preprocessing model no longer matches the implementation: " + what,
-                          dict(cfg=cfg_case(cfg), detail=detail, n_disagreements=len(bad)), key="correspondence:" + what, no_input=True)
+                          dict(cfg=cfg_case(cfg) if (isinstance(cfg, dict) and "pos_arg" in cfg) else cfg, detail=detail, n_disagreements=len(bad)),
+                          key="correspondence:" + what, no_input=True)
     if (tie_broken or not proofs_ok) and not ctx.violations:
         ctx.violation("proof/tie", "proof obligations or the model/code tie of C09 no longer check: %s" % (
             tie_broken or getattr(ctx, "proof_failure", {}).get("output_tail", "")[-600:]),
